@@ -136,4 +136,24 @@ theorem C04_source_skeletons :
     Gen.Skel.DB_truncateDatabase = Expected.Skel.DB_truncateDatabase :=
   ⟨rfl, rfl, rfl, rfl⟩
 
+/-- The database checksum is computed under the cache's lock and never guesses a page — facts
+    proved by `decide` about the skeleton of `(DB).checksum` regenerated from db.go: an empty
+    database answers the bare flag before anything is locked; the cache mutex is taken, and its
+    release deferred, before the block cache or a page checksum is read; blocks touched by the WAL
+    are marked before the block loop; a page without a recorded checksum ends the computation
+    with an error, and the one successful return comes last. -/
+theorem C04_checksum_reads_the_cache_under_its_lock :
+    let ix (sk : List (String × String)) (x : String × String) (d : Nat) := (sk.findIdx? (· == x)).getD d
+    let t := Gen.Skel.DB_checksum
+    ix t ("return", "return ltx.ChecksumFlag, nil") 1000 < ix t ("call", "db.chksums.mu.Lock") 0 ∧
+    ix t ("call", "db.chksums.mu.Lock") 1000 < ix t ("defer", "db.chksums.mu.Unlock") 0 ∧
+    ix t ("defer", "db.chksums.mu.Unlock") 1000 < ix t ("call", "db.blockChksum") 0 ∧
+    ix t ("set", "ignoredBlocks[block] = true") 1000 < ix t ("call", "db.blockChksum") 0 ∧
+    ix t ("call", "db.blockChksum") 1000 < ix t ("call", "db.pageChecksum") 0 ∧
+    ix t ("call", "db.pageChecksum") 1000 < ix t ("if", "!ok") 0 ∧
+    ix t ("if", "!ok") 1000 < ix t ("return", "return chksum, nil") 0 ∧
+    (t.filter (· == ("return", "return chksum, nil"))).length = 1 ∧
+    t.getLast? = some ("return", "return chksum, nil") := by
+  decide
+
 end LiteFSVerif.C04
